@@ -221,11 +221,12 @@ pub fn main(args: &[String]) -> i32 {
     let mut viol: Vec<String> = Vec::new();
     let (mut total_ret, mut total_pk, mut runs) = (0u64, 0u64, 0u64);
     let mut kinds = std::collections::BTreeSet::new();
-    let special = [0usize, 1, 2, 99, 100, 101, 199, 200, 201, 300];
+    let small = arg_u64(args, "--small", 0) == 1; // tiny workload for interpreters (Miri)
+    let special: Vec<usize> = if small { vec![0, 1, 2, 3] } else { vec![0, 1, 2, 99, 100, 101, 199, 200, 201, 300] };
     for c in 0..cases {
         let npk = if (c as usize) < special.len() { special[c as usize] } else if rng.chance(1, 10) { max_packets as usize } else { rng.below(max_packets.min(400)) as usize };
         let nlinks = 1 + rng.below(5);
-        let maxp = *rng.pick(&[0u64, 16, 200, 1000, 10000]);
+        let maxp = if small { *rng.pick(&[0u64, 16, 200]) } else { *rng.pick(&[0u64, 16, 200, 1000, 10000]) };
         let d = gen_stream(&mut rng, npk, nlinks, maxp);
         let pk = walk(&d);
         if pk.len() != npk {
